@@ -57,6 +57,38 @@ def _np_dtype(vals):
     return "int64" if vals and all(isinstance(v, int) and not isinstance(v, bool) for v in vals) else "float64"
 
 
+SCALARS = ("scalar", "array0", "npscalar", "f32scalar")
+F32KINDS = ("f32array", "f32series", "f32scalar")
+
+
+def _opts(s: str):
+    """'kind|a=b|c=d' -> ('kind', {'a': 'b', 'c': 'd'}): how the call is made (LESSONS.md 2, 3):
+    ix = kind of Index object, form = pos / kw / omit, h = ord / init (kind of stream handle), vals = str / int / mixed (choices)"""
+    parts = s.split("|")
+    return parts[0], dict(x.split("=", 1) for x in parts[1:])
+
+
+def _split_op(op):
+    """(the op with a bare kind field, its call options)"""
+    j = {"filter": 2, "rate": 2, "choice": 3, "rchoice": 4}.get(op[0])
+    if j is None:
+        return op, {}
+    base, o = _opts(op[j])
+    return op[:j] + [base] + op[j + 1:], o
+
+
+def _with(kind: str, **o) -> str:
+    return kind + "".join(f"|{k}={v}" for k, v in o.items() if v not in (None, "", "int64", "pos", "ord", "str"))
+
+
+def _choice_labels(k, vals):
+    if vals == "int":
+        return [7 + 10 * j for j in range(k)]
+    if vals == "mixed":
+        return ["c0"] + [j if j % 2 else float(j) + 0.5 for j in range(1, k)]
+    return [f"c{j}" for j in range(k)]
+
+
 # ---------------------------------------------------------------------- implementation side
 def _resolve(tok, draws):
     """token -> float (or the residual placeholder)"""
@@ -66,6 +98,8 @@ def _resolve(tok, draws):
         return float.fromhex(arg)
     if kind == "i":
         return int(arg)
+    if kind == "b":
+        return bool(int(arg))
     if kind == "R":
         return "R"
     d = float(draws.iloc[int(arg)])
@@ -80,10 +114,10 @@ def _resolve(tok, draws):
     raise ValueError(tok)
 
 
-def _population(env, kind, req):
+def _population(env, kind, req, ix="int64"):
     import numpy as np
     pd = env.pd
-    idx = env.index(req)
+    idx = env.index(req, ix)
     n = len(req)
     if kind == "index":
         return idx
@@ -110,6 +144,16 @@ def _prob_object(env, kind, vals, req):
     pd = env.pd
     if kind == "scalar":
         return vals[0]
+    if kind == "npscalar":
+        return np.float64(vals[0])
+    if kind == "f32array":
+        return np.array(vals, dtype="float32")
+    if kind == "f32series":
+        return pd.Series(np.array(vals, dtype="float32"), index=env.index(req))
+    if kind == "f32scalar":
+        return np.float32(vals[0])
+    if kind == "boollist":
+        return [bool(v) for v in vals]
     if kind == "array0":
         return np.array(vals[0])
     if kind in ("list", "short", "long"):
@@ -153,6 +197,14 @@ def _choices_object(pd, np, ckind, labels):
     raise ValueError(ckind)
 
 
+def _flat_values(arg):
+    """the numbers inside a probability / rate argument as python floats, in order (after whatever rounding its dtype did)"""
+    import numpy as np
+    if hasattr(arg, "values") and not isinstance(arg, (list, tuple)):
+        arg = arg.values
+    return [float(x) for x in np.atleast_1d(np.asarray(arg, dtype=float))]
+
+
 def _prob_index(kind, req):
     return [req[i] for i in range(len(req))][::-1] if kind == "series_perm" else list(req)
 
@@ -166,11 +218,16 @@ def _run_ops(case):
     blocks = {}
     obs = {"size": env.size, "pos0": env.positions(), "ops": [], "blocks": blocks, "seed": env.seed_str}
     for op in case["ops"]:
+        op, opts = _split_op(op)
         kind = op[0]
+        ix, form, handle = opts.get("ix", "int64"), opts.get("form", "pos"), opts.get("h", "ord")
         o = {"t": env.tstr(), "step": env.steps}
         obs["ops"].append(o)
         if kind == "step":
             env.step()
+            continue
+        if kind == "untrack":
+            env.untrack(op[1])
             continue
         if kind == "rchoice":
             _, nums, k, wspec, ckind = op
@@ -180,9 +237,9 @@ def _run_ops(case):
             req = list(range(len(nums)))
             ak = None
         else:
-            stream = env.streams[op[1]]
+            stream = env.init_stream if handle == "init" else env.streams[op[1]]
             req = op[3] if kind in ("filter", "rate") else op[2]
-            ak = op[-1]
+            ak = sc.ak_obj(op[-1])
             try:
                 ks, blk = env.block(stream, ak)
                 o["ks"] = ks
@@ -190,7 +247,7 @@ def _run_ops(case):
             except Exception as e:  # noqa: BLE001
                 o["ks"] = None
             try:
-                draws = stream.get_draw(env.index(req), ak)
+                draws = stream.get_draw(env.index(req, ix), ak)
                 o["dhx"] = [sc.fhex(x) for x in draws.values]
             except Exception as e:  # noqa: BLE001
                 draws = None
@@ -198,22 +255,35 @@ def _run_ops(case):
         try:
             if kind in ("filter", "rate"):
                 _, _, popkind, _, (pkind, toks), _ = op
-                if draws is None and any(not t.startswith(("h:", "i:")) for t in toks):
+                if draws is None and any(not t.startswith(("h:", "i:", "b:")) for t in toks):
                     o["r"] = "skip"
                     continue
                 vals = [_resolve(t, draws) for t in toks]
                 arg = _prob_object(env, pkind, vals, req)
-                pop = _population(env, popkind, req)
+                pop = _population(env, popkind, req, ix)
+                fn = stream.filter_for_rate if kind == "rate" else stream.filter_for_probability
+                flat = _flat_values(arg)[::-1] if pkind == "series_perm" else _flat_values(arg)     # in the order of the tokens
                 if kind == "rate":
-                    p = rate_to_probability(arg)
+                    o["vhx"] = [sc.fhex(x) for x in flat]
+                    try:
+                        p = rate_to_probability(arg)
+                    except Exception as e:  # noqa: BLE001
+                        # the conversion itself refuses the argument: nothing to hand to the model; judged by the oracle
+                        o["r"] = "skip"
+                        o["conv_err"] = sc.exc_class(e)
+                        continue
                     o["phx"] = [sc.fhex(x) for x in np.atleast_1d(np.asarray(p, dtype=float))]
-                    o["vhx"] = [sc.fhex(x) for x in vals]
-                    res = stream.filter_for_rate(pop, arg, ak)
                 else:
-                    o["phx"] = [sc.fhex(x) for x in vals]
-                    res = stream.filter_for_probability(pop, arg, ak)
-                o["type"] = type(res).__name__
-                o["intype"] = type(pop).__name__
+                    o["phx"] = [sc.fhex(x) for x in flat]
+                if form == "kw":
+                    res = fn(population=pop, **{"rate" if kind == "rate" else "probability": arg}, additional_key=ak)
+                elif form == "omit" and ak is None:
+                    res = fn(pop, arg)
+                else:
+                    res = fn(pop, arg, ak)
+                base = lambda x: next((c.__name__ for c in (pd.DataFrame, pd.Series, pd.Index) if isinstance(x, c)), type(x).__name__)   # noqa: E731
+                o["type"] = base(res)           # Index / Series / DataFrame (a filtered RangeIndex is an Index)
+                o["intype"] = base(pop)
                 o["kept"] = [int(x) for x in (res if isinstance(res, pd.Index) else res.index)]
                 o["rows"] = _rows_of(res, popkind)
                 o["ncols"] = int(res.shape[1]) if isinstance(res, pd.DataFrame) else None
@@ -226,7 +296,7 @@ def _run_ops(case):
                     stream.choice(env.index(req), [f"c{j}" for j in range(k)], None, ak)
                     o["r"] = "ok?"
                     continue
-                labels = [f"c{j}" for j in range(k)]
+                labels = _choice_labels(k, opts.get("vals", "str"))
                 choices = _choices_object(pd, np, ckind, labels)
                 p = None
                 if wspec is not None:
@@ -240,12 +310,25 @@ def _run_ops(case):
                         p = np.array(p, dtype=object if any(v == "R" for v in flat) else _np_dtype(flat))
                     elif cont == "tuple":
                         p = tuple(p) if dim == 1 else tuple(tuple(r) for r in p)
+                    elif cont == "series":           # 1-d weights as a Series (default index)
+                        p = pd.Series(py[0])
+                    elif cont == "series_rev":       # … with a reversed index: weights are positional, labels must not matter
+                        p = pd.Series(py[0], index=list(range(len(py[0])))[::-1])
+                    elif cont == "frame":            # 2-d weights as a DataFrame, one row per simulant
+                        p = pd.DataFrame(py)
                 if kind == "choice":
-                    res = stream.choice(env.index(req), choices, p, ak)
+                    idx = env.index(req, ix)
+                    if form == "kw":
+                        res = stream.choice(index=idx, choices=choices, p=p, additional_key=ak)
+                    elif form == "omit" and ak is None:
+                        res = stream.choice(idx, choices) if p is None else stream.choice(idx, choices, p)
+                    else:
+                        res = stream.choice(idx, choices, p, ak)
                 else:
-                    res = _choice(draws, choices, p)
+                    res = _choice(draws, choices, p) if form != "kw" else _choice(draws=draws, choices=choices, p=p)
                 o["idx"] = [int(x) for x in res.index]
-                o["picks"] = [labels.index(str(x)) for x in res.values]
+                keymap = {str(v): j for j, v in enumerate(labels)}
+                o["picks"] = [keymap[str(x)] for x in res.values]
                 o["r"] = "ok"
         except Exception as e:  # noqa: BLE001
             o["r"] = sc.exc_class(e)
@@ -372,7 +455,9 @@ class C05(Prop):
         out = []
         for t in toks:
             r = rng.random()
-            if t.startswith("i:"):
+            if t.startswith("b:"):
+                out.append(rng.choice([t, "b:1", _h(1.0)]))
+            elif t.startswith("i:"):
                 v = int(t[2:])
                 out.append(t if r < 0.3 else _i(v + rng.choice([0, 1, 2, 100])) if r < 0.8 else _h(v + rng.choice([0.0, 0.5])))
             elif t.startswith("h:"):
@@ -422,38 +507,41 @@ class C05(Prop):
         parts = [b - a for a, b in zip([0] + cuts, cuts + [units])]
         return [_h(p / float(units)) for p in parts]
 
-    def _choice_ops(self, rng, si, req, ak):
+    def _choice_ops(self, rng, si, req, ak, how=None):
         ops = []
         n = len(req)
-        k = rng.randint(2, 5)
+        k = rng.choice([1, 2, 2, 3, 3, 4, 5])
         r = rng.random()
+        how = how or (lambda kind, **kw: kind)
         if n == 0:
             r = r * 0.3 if r < 0.6 else 0.5 + r * 0.18      # no simulant: only argument forms that have a shape without rows
-        ck = lambda: rng.choice(["list", "list", "tuple", "array"] + CKINDS_SERIES)   # noqa: E731
+        ck = lambda: how(rng.choice(["list", "list", "tuple", "array"] + CKINDS_SERIES), vals=rng.choice(["str", "str", "int", "mixed"]))   # noqa: E731
         cont = lambda: rng.choice(["list", "list", "array", "tuple"])           # noqa: E731
+        cont1 = lambda: rng.choice(["list", "list", "array", "tuple", "series", "series_rev"])      # noqa: E731  containers of a 1-d weight row
+        cont2 = lambda: rng.choice(["list", "list", "array", "tuple", "frame"])                     # noqa: E731  … of a matrix
         if r < 0.12:
-            ops.append(["choice", si, req, ck(), rng.choice([2, 4, 3, 5]), None, ak])
+            ops.append(["choice", si, req, ck(), rng.choice([1, 2, 4, 3, 5]), None, ak])
         elif r < 0.3:      # 1-d rows, scaled copy
             row = self._weights_row(rng, k, rng.choice(["dyadic", "zeros", "float"]))
-            ops.append(["choice", si, req, ck(), k, [1, cont(), [row]], ak])
+            ops.append(["choice", si, req, ck(), k, [1, cont1(), [row]], ak])
             c = rng.choice([2.0, 0.25, 3.0, 8.0, 0.1])
-            ops.append(["choice", si, req, ck(), k, [1, cont(), [[_scaled(t, c) for t in row]]], ak])
+            ops.append(["choice", si, req, ck(), k, [1, cont1(), [[_scaled(t, c) for t in row]]], ak])
         elif r < 0.5:      # 2-d rows
             rows = [self._weights_row(rng, k, rng.choice(["dyadic", "dyadic", "zeros", "float"])) for _ in range(n)]
-            ops.append(["choice", si, req, ck(), k, [2, cont(), rows], ak])
+            ops.append(["choice", si, req, ck(), k, [2, cont2(), rows], ak])
             if rng.random() < 0.5 and n:
                 cs = [rng.choice([2.0, 0.5, 4.0, 3.0]) for _ in range(n)]
                 ops.append(["choice", si, req, ck(), k,
-                            [2, cont(), [[_scaled(t, c) for t in row] for row, c in zip(rows, cs)]], ak])
+                            [2, cont2(), [[_scaled(t, c) for t in row] for row, c in zip(rows, cs)]], ak])
         elif r < 0.68:     # residual placeholder and the spelled-out row
             if rng.random() < 0.5 or n == 0:
                 row = self._unit_row(rng, k)
-                ops.append(["choice", si, req, ck(), k, [1, cont(), [row]], ak])
-                ops.append(["choice", si, req, ck(), k, [1, cont(), [self._spell_residual(rng, row)]], ak])
+                ops.append(["choice", si, req, ck(), k, [1, cont1(), [row]], ak])
+                ops.append(["choice", si, req, ck(), k, [1, cont1(), [self._spell_residual(rng, row)]], ak])
             else:
                 rows = [self._unit_row(rng, k) for _ in range(n)]
-                ops.append(["choice", si, req, ck(), k, [2, cont(), rows], ak])
-                ops.append(["choice", si, req, ck(), k, [2, cont(), [self._spell_residual(rng, row) for row in rows]], ak])
+                ops.append(["choice", si, req, ck(), k, [2, cont2(), rows], ak])
+                ops.append(["choice", si, req, ck(), k, [2, cont2(), [self._spell_residual(rng, row) for row in rows]], ak])
         elif r < 0.86 and n:     # weights built from the simulants' own draws: the draw sits exactly on a bin edge
             form = rng.choice(["d", "0d", "dR", "Rd", "d0R", "half"])
             rows = []
@@ -470,7 +558,7 @@ class C05(Prop):
                     rows.append([f"d:{i}", _h(0.0), "R"])
                 else:
                     rows.append([f"d:{i}", f"d:{i}"] if i % 2 else [f"1-d:{i}", f"1-d:{i}"])
-            ops.append(["choice", si, req, ck(), len(rows[0]), [2, cont(), rows], ak])
+            ops.append(["choice", si, req, ck(), len(rows[0]), [2, cont2(), rows], ak])
         else:              # refused arguments
             form = rng.choice(["RR", "over", "over-row", "mixed", "rows", "one-row"])
             if form == "RR":
@@ -480,22 +568,23 @@ class C05(Prop):
             elif form == "over-row" and n:
                 rows = [[_h(0.5), "R", _h(0.25)] for _ in range(n)]
                 rows[rng.randrange(n)] = [_h(0.5), "R", _h(0.75)]
-                ops.append(["choice", si, req, ck(), 3, [2, cont(), rows], ak])
+                ops.append(["choice", si, req, ck(), 3, [2, cont2(), rows], ak])
             elif form == "mixed" and n >= 2:
                 rows = [[_h(0.5), "R"] for _ in range(n)]
                 rows[rng.randrange(n)] = [_h(0.5), _h(0.5)]
-                ops.append(["choice", si, req, ck(), 2, [2, cont(), rows], ak])
+                ops.append(["choice", si, req, ck(), 2, [2, cont2(), rows], ak])
             elif form == "rows":
                 rows = [self._unit_row(rng, 3) for _ in range(n + rng.choice([1, 2]))]
                 if len(rows) > 1:
-                    ops.append(["choice", si, req, ck(), 3, [2, cont(), rows], ak])
+                    ops.append(["choice", si, req, ck(), 3, [2, cont2(), rows], ak])
             else:
                 ops.append(["choice", si, req, ck(), 3, [2, cont(), [self._unit_row(rng, 3)]], ak])
         if ops and rng.random() < 0.6:
             # the same decision with the choices in another container: list vs Series with its own index
             base = ops[0]
-            other = rng.choice(CKINDS_SERIES) if base[3] in ("list", "tuple", "array") else "list"
-            ops.append(base[:3] + [other] + base[4:])
+            bk, bo = _opts(base[3])
+            other = rng.choice(CKINDS_SERIES) if bk in ("list", "tuple", "array") else "list"
+            ops.append(base[:3] + [_with(other, **bo)] + base[4:])
         return ops
 
     def _rchoice(self, rng, f9=False):
@@ -526,24 +615,37 @@ class C05(Prop):
         if rng.random() < 0.3 and scale == 1.0 / units and not f9:
             row = self._spell_residual(rng, row)
         if rng.random() < 0.5:
-            return ["rchoice", nums, k, [1, rng.choice(["list", "array"]), [row]], rng.choice(["list", "array", "tuple"] + CKINDS_SERIES)]
-        return ["rchoice", nums, k, [2, rng.choice(["list", "array"]), [row for _ in nums]], rng.choice(["list", "array"] + CKINDS_SERIES)]
+            return ["rchoice", nums, k, [1, rng.choice(["list", "array", "series", "series_rev"]), [row]],
+                    _with(rng.choice(["list", "array", "tuple"] + CKINDS_SERIES), form=rng.choice(["pos", "kw"]), vals=rng.choice(["str", "int", "mixed"]))]
+        return ["rchoice", nums, k, [2, rng.choice(["list", "array", "frame"]), [row for _ in nums]],
+                _with(rng.choice(["list", "array"] + CKINDS_SERIES), form=rng.choice(["pos", "kw"]), vals=rng.choice(["str", "int"]))]
 
     def generate(self, rng: random.Random, i: int, tier: str):
         env = _c02.PROP._env(rng)
         known = list(range(env["pop"])) if env["mode"] == "sim" else list(env["labels"])
         ns = len(env["streams"])
         ops = []
+        plain = rng.random() < 0.3           # a third of the cases: ordinary handles, int64 indexes, positional calls only
         for blockno in range(rng.randint(1, 3)):
             si = rng.randrange(ns)
-            ak = rng.choice([None, None, 3, "x", "a_b"])
+            ak = rng.choice([None, None, 3, "x", "a_b"] + ([] if plain else [rng.choice(_c02.AKS[15:])]))
             req = _c02.PROP._request(rng, known, env["size"], env["crn"], allow_bad=rng.random() < 0.15)
             if rng.random() < 0.1:
                 req = []
             n = len(req)
-            valid = all((s in known) if env["crn"] else (0 <= s < env["size"]) for s in req)
+            # the kind of handle is fixed per block (pairs of calls are compared), index object and call form vary per call
+            handle = "init" if (not plain and rng.random() < 0.15) else "ord"
+
+            def how(kind, **kw):
+                if plain:
+                    return _with(kind, **kw)
+                return _with(kind, ix=rng.choice(sc.IX_KINDS), form=rng.choice(["pos", "kw"] + (["omit"] if ak is None else [])), h=handle, **kw)
+
+            if env["mode"] == "sim" and known and not plain and rng.random() < 0.3:
+                ops.append(["untrack", rng.sample(known, rng.randint(1, max(1, len(known) // 2)))])     # stay registered, still decided for
+            valid = n <= env["size"] if handle == "init" else all((s in known) if env["crn"] else (0 <= s < env["size"]) for s in req)
             own = valid and n > 0
-            popkind = lambda: rng.choice(POPKINDS)     # noqa: E731
+            popkind = lambda: how(rng.choice(POPKINDS))     # noqa: E731
             # --- filters
             for _ in range(rng.randint(1, 3)):
                 r = rng.random()
@@ -551,12 +653,14 @@ class C05(Prop):
                     toks = self._pvals(rng, 1, own=False)
                     if own and rng.random() < 0.5:
                         toks = [rng.choice(["d:", "d+:", "d-:"]) + str(rng.randrange(n))]
-                    kind = rng.choice(["scalar", "scalar", "array0"])
+                    kind = rng.choice(["scalar", "scalar", "array0", "npscalar"])
                     ops.append(["filter", si, popkind(), req, [kind, toks], ak])
                     ops.append(["filter", si, popkind(), req, [kind, self._raise_tokens(rng, toks)], ak])
                 elif r < 0.85:
                     toks = self._pvals(rng, n, own=own)
-                    kind = rng.choice(["list", "tuple", "array", "series"])
+                    kind = rng.choice(["list", "tuple", "array", "series", "f32array"])
+                    if toks and all(t in ("i:0", "i:1") for t in toks) and rng.random() < 0.5:
+                        kind, toks = "boollist", ["b:" + t[2:] for t in toks]
                     ops.append(["filter", si, popkind(), req, [kind, toks], ak])
                     ops.append(["filter", si, popkind(), req, [rng.choice(["list", "array", "series"]), self._raise_tokens(rng, toks)], ak])
                 elif r < 0.93:
@@ -588,15 +692,22 @@ class C05(Prop):
                     ops.append(["rate", si, popkind(), req, [rng.choice(["list", "tuple", "array", "series"]), self._raise_tokens(rng, toks)], ak])
             if rng.random() < 0.7:
                 rates = [rng.choice([0.0, 0.0, 0.125, 1.0, 3.0, 40.0, 250.0, 251.0, 1e6, rng.random(), rng.random() * 5]) for _ in range(n)]
-                kind = rng.choice(["list", "array", "series", "tuple"])
+                kind = rng.choice(["list", "array", "series", "tuple", "f32array", "f32series"])
                 pk = popkind()
                 ops.append(["rate", si, pk, req, [kind, [_h(x) for x in rates]], ak])
                 ops.append(["rate", si, pk, req, [kind, [_h(x + rng.choice([0.0, 0.5, 2.0 ** -20, 300.0])) for x in rates]], ak])
                 if rng.random() < 0.5:
-                    ops.append(["rate", si, popkind(), req, [rng.choice(["scalar", "array0"]), [_h(rng.choice([0.0, 0.25, 2.0, 1000.0]))]], ak])
+                    ops.append(["rate", si, popkind(), req, [rng.choice(["scalar", "array0", "npscalar", "f32scalar"]), [_h(rng.choice([0.0, 0.25, 2.0, 100.0, 120.0, 1000.0]))]], ak])
+            if rng.random() < 0.3:
+                # float32 rates with entries from 88 upwards (F32): ordinary inputs, converted in float64
+                big = [rng.choice([0.0, 0.5, 3.0, 88.0, 100.0, 120.0, 250.0, 300.0, 1e6]) for _ in range(n)]
+                k32 = rng.choice(["f32array", "f32series", "f32scalar"])
+                toks = [_h(rng.choice([100.0, 120.0, 250.0, 1e6]))] if k32 == "f32scalar" else [_h(x) for x in big]
+                ops.append(["rate", si, popkind(), req, [k32, toks], ak])
+                ops.append(["rate", si, popkind(), req, ["scalar" if k32 == "f32scalar" else "array", [_h(float.fromhex(t[2:]) * 0.5) for t in toks]], ak])
             # --- choices
             for _ in range(rng.randint(1, 3)):
-                ops += self._choice_ops(rng, si, req, ak)
+                ops += self._choice_ops(rng, si, req, ak, how)
             if rng.random() < 0.4:
                 ops.append(self._rchoice(rng, f9=rng.random() < 0.15))
             if rng.random() < 0.6:
@@ -683,6 +794,53 @@ class C05(Prop):
                     ["step"],
                     ["filter", 0, "series", req, ["list", own], None], ["choice", 1, req, "list", 2, [2, "list", [[f"d:{i}", "R"] for i in range(n)]], None]]
             out.append({"env": env, "ops": ops})
+            # ---- LESSONS.md audit: every kind of handle, call form, index object, additional key, container and dtype
+            W = _with
+            a2 = []
+            half = [H(0.5)] * n
+            for h in ("ord", "init"):
+                for ix in sc.IX_KINDS:
+                    for form in ("pos", "kw", "omit"):
+                        a2 += [["filter", 0, W("series", ix=ix, form=form, h=h), req, ["list", own], None],
+                               ["filter", 0, W("index", ix=ix, form=form, h=h), req, ["scalar", [H(0.5)]], None],
+                               ["choice", 1, req, W("series_rot", ix=ix, form=form, h=h), 2, [2, "list", [[f"d:{i}", "R"] for i in range(n)]], None],
+                               ["choice", 1, req, W("list", ix=ix, form=form, h=h), 3, None, None]]
+                a2 += [["filter", 0, W("frame", h=h), dup, ["list", [H(0.0), H(1.0), H(0.5), H(1.0)]], "x"],
+                       ["rate", 0, W("frame0", h=h, form="kw"), req, ["array", [_i(x) for x in (0, 1, 2, 5, 249, 250)]], None],
+                       ["rate", 0, W("index", h=h), req, ["scalar", [H(0.5)]], None], ["rate", 0, W("index", h=h, form="kw"), req, ["scalar", [_i(1)]], None],
+                       ["filter", 0, W("index", h=h), [], ["scalar", [H(1.0)]], None], ["choice", 1, [], W("list", h=h), 2, None, None]]
+            for ak in _c02.AKS[15:] + [0, "", -3]:
+                a2 += [["filter", 0, W("series", form="kw"), req, ["scalar", [H(0.5)]], ak], ["choice", 1, req, W("series_gap", form="kw"), 2, None, ak]]
+            a2 += [["filter", 0, "index", req, ["npscalar", [H(0.5)]], None], ["filter", 0, "series", req, ["npscalar", ["d:1"]], None],
+                   ["filter", 0, "frame", req, ["f32array", [H(0.5), H(0.25), H(1.0), H(0.0), "d:4", H(0.75)]], None],
+                   ["filter", 0, "index", req, ["boollist", ["b:1", "b:0", "b:1", "b:1", "b:0", "b:0"]], None],
+                   ["rate", 0, "series", req, ["f32array", [H(x) for x in (0.0, 0.5, 1.0, 5.0, 40.0, 80.0)]], None],
+                   ["rate", 0, "series", req, ["npscalar", [H(2.0)]], None],
+                   # F32 (repaired): float32 rates from ~88 upwards used to underflow exp() in float32 and raise
+                   ["rate", 0, "index", req, ["f32array", [H(x) for x in (0.0, 0.5, 1.0, 5.0, 100.0, 300.0)]], None],
+                   ["rate", 0, "series", req, ["f32series", [H(x) for x in (0.25, 88.0, 120.0, 250.0, 251.0, 1e6)]], None],
+                   ["rate", 0, "frame", req, ["f32scalar", [H(120.0)]], None], ["rate", 0, "frame0", req, ["f32scalar", [H(100.0)]], None],
+                   ["rate", 0, "index", req, ["f32scalar", [H(0.5)]], None], ["rate", 0, "index", req, ["array", [H(x) for x in (0.0, 0.25, 0.5, 2.5, 50.0, 150.0)]], None],
+                   ["filter", 0, "series", req, ["f32series", [H(0.5), H(0.25), H(1.0), H(0.0), "d:4", H(0.75)]], None]]
+            for cont in ("series", "series_rev"):
+                a2 += [["choice", 1, req, "list", 3, [1, cont, [[H(0.25), H(0.0), H(0.75)]]], None],
+                       ["choice", 1, req, "series_rot", 3, [1, cont, [[H(0.25), "R", H(0.5)]]], None],
+                       ["choice", 1, req, "list", 3, [1, cont, [[_i(1), _i(0), _i(3)]]], None]]
+            a2 += [["choice", 1, req, "list", 2, [2, "frame", [[f"d:{i}", f"1-d:{i}"] for i in range(n)]], None],
+                   ["choice", 1, req, "series_rev", 2, [2, "frame", [[f"d:{i}", "R"] for i in range(n)]], None],
+                   ["choice", 1, req, "tuple", 3, [2, "frame", [[_i(1), _i(0), _i(3)]] * n], None]]
+            for vals in ("int", "mixed"):
+                for ckd in ("list", "tuple", "array", "series", "series_rot", "series_str"):
+                    a2 += [["choice", 1, req, W(ckd, vals=vals), 3, [1, "list", [[H(0.25), H(0.0), H(0.75)]]], None]]
+            for ckd in ("list", "array", "series_big", "series_str"):        # a single option
+                a2 += [["choice", 1, req, ckd, 1, None, None], ["choice", 1, req, ckd, 1, [1, "list", [[H(0.5)]]], None],
+                       ["choice", 1, req, ckd, 1, [1, "list", [["R"]]], None], ["choice", 1, req, ckd, 1, [2, "array", [[_i(3)]] * n], None]]
+            if mode == "sim":
+                a2 += [["untrack", [lab[1], lab[4]]], ["filter", 0, "series", req, ["list", own], None], ["filter", 0, "frame", [lab[4], lab[1]], ["scalar", [H(1.0)]], None],
+                       ["rate", 0, "index", req, ["scalar", [_i(1)]], None], ["choice", 1, req, "series_rot", 2, [2, "list", [[f"d:{i}", "R"] for i in range(n)]], None],
+                       ["choice", 1, [lab[1]], "list", 2, None, None],
+                       ["filter", 0, W("frame", ix="pop"), lab, ["list", half], None], ["choice", 1, lab, W("series_gap", ix="pop", form="kw"), 3, None, "x"]]
+            out.append({"env": env, "ops": a2})
         # `_choice` directly: every bin edge, one numerator below and above, first and last representable draw
         T = sc.TWO53
         e = lambda a, b: a * T // b    # noqa: E731
@@ -724,11 +882,14 @@ class C05(Prop):
         return _run_ops(case)
 
     # ------------------------------------------------------------------ model
-    def _components(self, case, op, o):
+    def _components(self, case, op, o, opts):
         st = case["env"]["streams"][op[1]]
         sd = case["env"]["seed"]
         base = str(sd[0]) + (str(sd[1]) if sd[1] is not None else "")
-        return st[0], o["t"], str(op[-1]), base if st[1] is None else str(st[1])
+        t = sc.expected_tstr(case["env"], o["step"])          # from the configuration, not read back from the clock
+        if opts.get("h") == "init":
+            return "crn.init", t, sc.ak_str(op[-1]), base
+        return st[0], t, sc.ak_str(op[-1]), base if st[1] is None else str(st[1])
 
     @staticmethod
     def _weights_token(whx):
@@ -749,7 +910,9 @@ class C05(Prop):
             L.append(sc.pos_line(obs["pos0"]))
         seen = set()
         for op, o in zip(case["ops"], obs["ops"]):
+            op, opts = _split_op(op)
             kind = op[0]
+            pre = "i" if opts.get("h") == "init" else ""
             if kind == "step" or o.get("r") in ("skip", None):
                 continue
             if kind == "rchoice":
@@ -758,7 +921,7 @@ class C05(Prop):
                 continue
             if o.get("ks") is not None:
                 L += sc.blocks_lines(obs["blocks"], seen, o["ks"])
-            k, t, a, sd = self._components(case, op, o)
+            k, t, a, sd = self._components(case, op, o, opts)
             head = f"{sc.hx(k)} {sc.hx(t)} {sc.hx(a)} {sc.hx(sd)}"
             if kind in ("filter", "rate"):
                 req = op[3]
@@ -770,9 +933,9 @@ class C05(Prop):
                 shift = max(0, e - 53)
                 D = 1 << (53 + shift)
                 ns = [str(int(p * D)) for p in ps]
-                if pk in ("scalar", "array0"):
+                if pk in SCALARS:
                     tok = f"s:{ns[0]}"
-                elif pk in ("series", "series_perm"):
+                elif pk in ("series", "series_perm", "f32series"):
                     if pk == "series_perm":
                         ns = ns[::-1]       # the Series carries the values in the (reversed) order of its index
                     tok = f"x:{','.join(map(str, _prob_index(pk, req))) or '-'}:{','.join(ns) or '-'}"
@@ -780,19 +943,20 @@ class C05(Prop):
                     tok = f"t:{','.join(ns) or '-'}"
                 else:
                     tok = f"l:{','.join(ns) or '-'}"
-                L.append(f"filter {head} {shift} {','.join(map(str, req)) or '-'} {tok}")
+                L.append(f"{pre}filter {head} {shift} {','.join(map(str, req)) or '-'} {tok}")
             else:
                 req = op[2]
                 if "whx" not in o and op[5] is not None:
                     # the draw itself was refused before the weights could be built: compared as a refusal
-                    L.append(f"choice {head} {','.join(map(str, req)) or '-'} {op[4]} none")
+                    L.append(f"{pre}choice {head} {','.join(map(str, req)) or '-'} {op[4]} none")
                     continue
                 w = "none" if op[5] is None else self._weights_token((op[5][0], o["whx"]))
-                L.append(f"choice {head} {','.join(map(str, req)) or '-'} {op[4]} {w}")
+                L.append(f"{pre}choice {head} {','.join(map(str, req)) or '-'} {op[4]} {w}")
         return L
 
     def _near(self, op, o):
         """per simulant: True when the decision may legitimately differ between exact and float arithmetic"""
+        op, _ = _split_op(op)
         kind = op[0]
         wspec = op[3] if kind == "rchoice" else op[5]
         k = op[2] if kind == "rchoice" else op[4]
@@ -819,6 +983,7 @@ class C05(Prop):
             next(it)
         seen = set()
         for n, (op, o) in enumerate(zip(case["ops"], obs["ops"])):
+            op, opts = _split_op(op)
             kind = op[0]
             if kind == "step" or o.get("r") in ("skip", None):
                 continue
@@ -863,19 +1028,42 @@ class C05(Prop):
             F.append({"sig": sig, "msg": msg})
 
         known = set(range(env["pop"])) if env["mode"] == "sim" else set(env.get("labels", []))
-        size = obs["size"]
+        size = sc.expected_size(env)             # from the configuration (LESSONS.md 1)
+        if obs["size"] != size:
+            fail("block-size", f"the index map has size {obs['size']}, configured {env['size']} with population {env['pop']}")
         filters, choices = [], []
+
+        def valid(req, opts):
+            """every member can be given a draw: registered / inside the block; an initialising stream takes anybody, positionally"""
+            if opts.get("h") == "init":
+                return len(req) <= size
+            return all((s in known) if env["crn"] else (0 <= s < size) for s in req)
+
         for n, (op, o) in enumerate(zip(case["ops"], obs["ops"])):
+            op, opts = _split_op(op)
             kind = op[0]
+            if kind == "rate" and o.get("conv_err"):
+                rs = [float.fromhex(h) for h in o["vhx"]]
+                if op[4][0] in F32KINDS and o["conv_err"] == "err:FloatingPointError" and any(r > 87 for r in rs):
+                    # F32 (repaired by a97e775c, `np.array(rate, dtype=float)`): a float32 rate above ~88 (clipped at 250) made exp(-r)
+                    # underflow in float32 and vivarium's numpy.seterr(all="raise") turned that into FloatingPointError
+                    fail("rate-float32-underflow", f"op #{n} {str(op)[:160]}: rate_to_probability raised {o['conv_err']} for float32 rates {rs}")
+                elif all(math.isfinite(r) and r >= 0 for r in rs):
+                    fail("rate-conversion-refused", f"op #{n} {str(op)[:160]}: rate_to_probability raised {o['conv_err']} for rates {rs}")
+                continue
             if kind == "step" or o.get("r") in ("skip", None):
                 continue
-            tag = f"op #{n} {str(op)[:200]}"
+            if "t" in o and o["t"] != sc.expected_tstr(env, o["step"]):
+                fail("clock-string", f"op #{n}: the clock reads {o['t']!r} after {o['step']} steps, configured {sc.expected_tstr(env, o['step'])!r}")
+            tag = f"op #{n} {str(op)[:200]} {opts or ''}"
             if kind in ("filter", "rate"):
                 _, si, popkind, req, (pkind, toks), ak = op
+                if opts.get("h") == "init":
+                    si = "init"
                 if kind == "rate" and pkind == "tuple":
                     pkind = "array"
                 nreq = len(req)
-                valid_sims = all((s in known) if env["crn"] else (0 <= s < size) for s in req)
+                valid_sims = valid(req, opts)
                 if nreq == 0:
                     if o["r"] != "ok":
                         fail("filter-refused", f"{tag}: {o['r']} for an empty population")
@@ -887,7 +1075,7 @@ class C05(Prop):
                         fail("unknown-simulant-accepted", f"{tag}: kept {o['kept']}")
                     continue
                 m = len(toks)
-                ok_arg = pkind in ("scalar", "array0") or (pkind == "series_perm" and m == nreq and req == req[::-1]) or \
+                ok_arg = pkind in SCALARS or (pkind == "series_perm" and m == nreq and req == req[::-1]) or \
                     (pkind not in ("series_perm",) and m == nreq) or (pkind == "tuple" and m == 1)
                 if not ok_arg:
                     continue            # malformed argument: outside the property (the model pins today's refusal)
@@ -898,7 +1086,7 @@ class C05(Prop):
                     continue
                 ds = [float.fromhex(h) for h in o["dhx"]]
                 ps = [float.fromhex(h) for h in o["phx"]]
-                if pkind in ("scalar", "array0") or (pkind == "tuple" and m == 1):
+                if pkind in SCALARS or (pkind == "tuple" and m == 1):
                     ps = ps * nreq
                 if pkind == "series_perm":
                     ps = ps[::-1]           # a palindromic request: the reversed Series is identically labelled
@@ -924,11 +1112,11 @@ class C05(Prop):
                     fail("filter-columns", f"{tag}: result has {o['ncols']} columns")
                 if kind == "rate":
                     rs = [float.fromhex(h) for h in o["vhx"]]
-                    if pkind in ("scalar", "array0") or (pkind == "tuple" and m == 1):
+                    if pkind in SCALARS or (pkind == "tuple" and m == 1):
                         rs = rs * nreq
                     for i in range(nreq):
                         pe = 1.0 - math.exp(-min(rs[i], 250.0))
-                        if abs(Fraction(ds[i]) - Fraction(pe)) < EPS:
+                        if abs(Fraction(ds[i]) - Fraction(pe)) < EPS:       # float32 rates are converted in float64 (F32)
                             continue
                         if (ds[i] < pe) != (ds[i] < ps[i]):
                             fail("rate-conversion", f"{tag}: rate {rs[i]} converted to probability {ps[i]}; 1-exp(-min(r,250)) = {pe}, draw {ds[i]}")
@@ -946,7 +1134,9 @@ class C05(Prop):
                 valid_sims = True
             else:
                 _, si, req, ckind, k, wspec, ak = op
-                valid_sims = all((s in known) if env["crn"] else (0 <= s < size) for s in req)
+                if opts.get("h") == "init":
+                    si = "init"
+                valid_sims = valid(req, opts)
             if not valid_sims:
                 if o["r"] == "ok":
                     fail("unknown-simulant-accepted", f"{tag}: picks {o.get('picks')}")
@@ -1046,13 +1236,29 @@ class C05(Prop):
     def tags(self, case, obs):
         env = case["env"]
         t = [f"mode:{env['mode']}", f"crn:{int(env['crn'])}", f"clock:{env['clock']}"]
+        untracked = set()
         for op, o in zip(case["ops"], obs["ops"]):
+            op, opts = _split_op(op)
             kind = op[0]
             t.append("op:" + kind)
+            if kind == "untrack":
+                untracked |= set(op[1])
+            if o.get("conv_err"):
+                t.append(f"rate-conversion-refused:{op[4][0]}:{o['conv_err'][4:]}")
             if kind == "step" or o.get("r") in ("skip", None):
                 continue
             res = o["r"] if o["r"] == "ok" else "refused:" + o["r"][4:]
             t.append(f"{kind}:{res}")
+            t += [f"handle:{opts.get('h', 'ord')}", f"call-form:{opts.get('form', 'pos')}"]
+            if kind != "rchoice":
+                t.append(f"index-kind:{opts.get('ix', 'int64')}")
+                ak_ = op[-1]
+                t.append("ak:" + ("none" if ak_ is None else "obj-" + next(iter(ak_)) if isinstance(ak_, dict) else type(ak_).__name__))
+                if untracked & set(op[3] if kind in ("filter", "rate") else op[2]):
+                    t.append("untracked-simulants-in-population")
+            if kind in ("choice", "rchoice"):
+                t.append(f"choice-values:{opts.get('vals', 'str')}")
+                t.append(f"options:{op[2] if kind == 'rchoice' else op[4]}" if (op[2] if kind == "rchoice" else op[4]) == 1 else "options:>1")
             if kind in ("filter", "rate"):
                 _, si, popkind, req, (pkind, toks), ak = op
                 t += [f"pop:{popkind}", f"arg:{pkind}"]
